@@ -118,6 +118,48 @@ def judge_history(case):
 
 
 # ---------------------------------------------------------------------------------------------
+def bestof_data(spec):
+    """multi-temperature data that no PervaporationFunction of the requested orders represents exactly
+    (deterministic relative 'noise'), so the losses of the candidate orders are all distinct and unordered."""
+    law, ci, temps, xs, k = spec
+    pts = []
+    i = 0
+    for t in temps:
+        for x in xs:
+            i += 1
+            pts.append(OPT.Measurement(x=x, t=t, p=U.law_value(law, ci, x, t) * (1 + 0.09 * math.sin(12.9898 * i * (k + 1)) + 0.04 * math.cos(4.1 * i + k))))
+    return OPT.Measurements(data=pts)
+
+
+def judge_bestof(case):
+    data = bestof_data(case["data"])
+    ci = case["data"][1]
+    pristine = canon.ser(data)
+    st, best = core.call(U.pyvaporation.find_best_fit, data, include_zero=case["include_zero"], component_index=ci, n=case["n"], m=case["m"])
+    if st != "ok":
+        return core.result("raised", viol=[core.viol("C16/best_fit_raises", "%r" % (best,))])
+    v = []
+    if canon.ser(data) != pristine:
+        v.append(core.viol("C16/measurements_mutated", "find_best_fit changed its data: %s" % canon.diff(pristine, canon.ser(data))))
+
+    def sq(f):
+        return sum((float(f(d.x, d.t)) - d.p) ** 2 for d in data.data)
+
+    lbest = sq(best)
+    singles = {}
+    for n in range(case["n"] + 1):
+        for m in range(case["m"] + 1):
+            f = U.pyvaporation.fit(bestof_data(case["data"]), n=n, m=m, include_zero=case["include_zero"], component_index=ci)
+            singles[(n, m)] = sq(f)
+    worst = min(singles.items(), key=lambda kv: kv[1])
+    if not lbest <= worst[1] * (1 + 1e-12) + 1e-300:
+        v.append(core.viol("C16/not_best", "find_best_fit(n=%d, m=%d, include_zero=%r) returns squared error %r (orders n=%d m=%d) but the single fit n=%d m=%d reaches %r" % (
+            case["n"], case["m"], case["include_zero"], lbest, best.n, best.m, worst[0][0], worst[0][1], worst[1]), losses={"%d,%d" % k: e for k, e in singles.items()}))
+    nonmono = sum(1 for n in range(case["n"] + 1) for m in range(1, case["m"]) if singles[(n, m)] >= singles[(n, m - 1)] and singles[(n, m + 1)] < singles[(n, m)])
+    return core.result("best-of", digest=core.digest_of([case, lbest]), viol=v, states=1, transitions=1 + len(singles), traces=1, rows_with_non_monotone_loss=nonmono,
+                       sample={"best_orders": (best.n, best.m), "loss": lbest, "candidates": len(singles)})
+
+
 def vle_points(name):
     return UQ.VLEPoints.from_csv(os.path.join(U.REPO, "tests", "VLE_data", "binary", name + ".csv"))
 
@@ -218,6 +260,17 @@ def main(tier, seed):
     m = core.run_space(rep, core.ListSpace("fit_histories", hist, note="all operation sequences up to depth %d" % depth), judge_history, chunk=4, determinism_probe=0)
     rep.note("max_history_depth", depth)
     rep.note("operations_in_menu", len(OPS))
+    bo = []
+    T4 = (313.15, 323.15, 333.15, 343.15)
+    T5 = (303.15, 318.15, 333.15, 348.15, 363.15)
+    for k in range(4 if q else 10):
+        for law, ci in (("lawA", 0), ("lawB", 1)):
+            bo.append({"data": (law, ci, T4, (0.08, 0.33, 0.45, 0.95), k), "n": 1, "m": 3, "include_zero": False})
+            if not q:
+                bo.append({"data": (law, ci, T5, (0.06, 0.32, 0.74), k), "n": 2, "m": 3, "include_zero": bool(k % 2)})
+                bo.append({"data": (law, ci, T4, (0.1, 0.5, 0.9), k), "n": 0, "m": 3, "include_zero": True})
+    mb = core.run_space(rep, core.ListSpace("best_of_search", bo), judge_bestof, chunk=1)
+    rep.note("best_of_rows_with_non_monotone_loss_in_m", mb["extra"].get("rows_with_non_monotone_loss", 0))
     vsets = ["MeOH_DMC", "EtOH_ETBE"] if q else ["MeOH_DMC", "EtOH_ETBE", "H2O_AceticAcid", "MeOH_MTBE", "MeOH_Toluene", "H2O_MeOH", "H2O_iPOH", "H2O_EtOH"]
     vcases = []
     for vs in vsets:
@@ -239,7 +292,7 @@ def main(tier, seed):
 
 
 def replay(body):
-    fn = {"fit_histories": judge_history, "vle_fits": judge_vle, "function_lattice": judge_function}[body["space"]]
+    fn = {"fit_histories": judge_history, "vle_fits": judge_vle, "function_lattice": judge_function, "best_of_search": judge_bestof}[body["space"]]
     r = fn(body["case"])
     for v in r["viol"]:
         print("violation key=%s: %s" % (v["key"], v["msg"]))
